@@ -31,6 +31,7 @@ limitations under the License.
 #include <photon/common/utility.h>
 #include <photon/thread/thread11.h>
 #include <photon/fs/fiemap.h>
+#include <photon/common/verif-hooks.h>
 #include <photon/fs/path.h>
 
 namespace photon {
@@ -86,6 +87,11 @@ FileCachePool::~FileCachePool() {
 
 void FileCachePool::Init() {
   probeFiemap();
+#ifdef PHOTON_VERIF
+  // harness override of the probe's choice: 1 force the in-memory range map, 2 force fiemap
+  if (auto m = VERIF_TUNABLE(T_CACHE_FIEMAP_MODE)) fiemapSupported_ = (m == 2);
+  if (fiemapSupported_) VERIF_COV(C_CACHE_FIEMAP_USED); else VERIF_COV(C_CACHE_RANGEMAP_USED);
+#endif
   timer_ = new photon::Timer(periodInUs_, {this, FileCachePool::timerHandler}, true, 8ULL * 1024 * 1024);
   // Scanning stat()s every cached file (seconds for a large cache).
   if (asyncInit_) {
